@@ -7,6 +7,11 @@ package specmatch
 // removes both degrees of freedom: the statements that follow an IF / EITHER / UNLESS are pushed into every arm that does
 // not end in a jump, dead statements after a jump are dropped, and `IF ( ~ c ) A ELSE B` becomes `IF c B ELSE A`.
 
+import (
+	"sort"
+	"strings"
+)
+
 const (
 	BlkOpen  = "{|"
 	BlkClose = "|}"
@@ -116,6 +121,35 @@ func stripNot(cond []string) ([]string, bool) {
 			}
 		}
 		return cond[2 : len(cond)-1], true
+	}
+	// `( L # R )` is `~ ( L = R )`: one top-level `#` (or `/=`) directly inside the outer parentheses
+	if len(cond) >= 5 && cond[0] == "(" && cond[len(cond)-1] == ")" {
+		depth, at, n := 0, -1, 0
+		for k := 1; k < len(cond)-1; k++ {
+			switch {
+			case isOpenTok(cond[k]):
+				depth++
+			case isCloseTok(cond[k]):
+				depth--
+				if depth < 0 {
+					return nil, false
+				}
+			case depth == 0:
+				switch cond[k] {
+				case "#", "/=":
+					at = k
+					n++
+				case "/\\", "\\/", "=>", "=", "<", ">", "<=", ">=", "\\in", "\\notin":
+					n += 2 // not a bare inequality
+				}
+			}
+		}
+		if n == 1 && at > 1 && at < len(cond)-2 {
+			out := append([]string{}, cond[:at]...)
+			out = append(out, "=")
+			out = append(out, cond[at+1:]...)
+			return out, true
+		}
 	}
 	return nil, false
 }
@@ -273,4 +307,113 @@ func itoa(n int) string {
 		n /= 10
 	}
 	return string(b)
+}
+
+// CommutativeNorm orders the operands of `=`, `#`, `+`, `*`, `\cup`, `\cap` inside a token stream. The streams write every
+// binary operation fully parenthesised, `( a op b )`, so the operands are found by matching parentheses: a group whose
+// content has exactly one top-level operator token of that set, with non-empty operands, has its operands put in
+// lexical order (inner groups first). Both operands are always evaluated, and their values do not depend on the order, so
+// `NUM_NODES = cntr[self]` and `cntr[self] = NUM_NODES` denote the same step; `/\` and `\/` are NOT treated this way,
+// because the left operand may be what makes the right one defined. Set literals `{ a , b }` are ordered likewise.
+func CommutativeNorm(toks []string) []string {
+	out, _ := commNorm(toks, 0, "")
+	return out
+}
+
+var commutativeOps = map[string]bool{"=": true, "#": true, "+": true, "*": true, "\\cup": true, "\\cap": true, "\\union": true, "\\intersect": true}
+
+// commNorm normalises toks[i:] up to the closer that matches open (or the end of the stream when open is "") and
+// returns the normalised tokens (without the closer) and the index after the closer.
+func commNorm(toks []string, i int, open string) ([]string, int) {
+	closer := map[string]string{"(": ")", "{": "}", "[": "]", "<<": ">>", BlkOpen: BlkClose}
+	var out []string
+	// positions (in out) of top-level tokens, to find a single top-level operator / the commas of a set literal
+	type span struct{ lo, hi int }
+	var tops []span
+	for i < len(toks) {
+		t := toks[i]
+		if open != "" && t == closer[open] {
+			i++
+			break
+		}
+		if c, isOpen := closer[t]; isOpen {
+			inner, next := commNorm(toks, i+1, t)
+			lo := len(out)
+			out = append(out, t)
+			out = append(out, inner...)
+			out = append(out, c)
+			tops = append(tops, span{lo, len(out)})
+			i = next
+			continue
+		}
+		tops = append(tops, span{len(out), len(out) + 1})
+		out = append(out, t)
+		i++
+	}
+	join := func(a []string) string { return strings.Join(a, " ") }
+	switch open {
+	case "(":
+		// exactly one top-level commutative operator, operands non-empty, nothing else that could change the reading
+		opAt := -1
+		n := 0
+		for k, sp := range tops {
+			if sp.hi-sp.lo == 1 && commutativeOps[out[sp.lo]] {
+				opAt = k
+				n++
+			}
+		}
+		if n == 1 && opAt > 0 && opAt < len(tops)-1 {
+			plain := true
+			for k, sp := range tops {
+				if k == opAt || sp.hi-sp.lo != 1 {
+					continue
+				}
+				// another top-level operator-like token (a comparison, a boolean connective, a keyword) means this is not `a op b`
+				switch out[sp.lo] {
+				case "/\\", "\\/", "<", ">", "<=", ">=", "\\in", "\\notin", "-", "\\div", "%", "\\o", "..", ":", ",", "IF", "THEN", "ELSE", "LET", "IN", "CHOOSE", "\\A", "\\E", "|->", "->", "@@", ":>", "\\", "\\X", "~", "=>", "EXCEPT", "!":
+					plain = false
+				}
+			}
+			if plain {
+				l, r := out[:tops[opAt].lo], out[tops[opAt].hi:]
+				if join(l) > join(r) {
+					no := append([]string{}, r...)
+					no = append(no, out[tops[opAt].lo])
+					no = append(no, l...)
+					out = no
+				}
+			}
+		}
+	case "{":
+		// a set literal: top-level commas only, no `:` / `\in` (comprehension)
+		var parts [][]string
+		cur := 0
+		ok := len(tops) > 0
+		for _, sp := range tops {
+			if sp.hi-sp.lo == 1 {
+				switch out[sp.lo] {
+				case ",":
+					parts = append(parts, out[cur:sp.lo])
+					cur = sp.hi
+				case ":", "\\in", "|->":
+					ok = false
+				}
+			}
+		}
+		if ok {
+			parts = append(parts, out[cur:])
+			if len(parts) > 1 {
+				sort.SliceStable(parts, func(a, b int) bool { return join(parts[a]) < join(parts[b]) })
+				var no []string
+				for k, p := range parts {
+					if k > 0 {
+						no = append(no, ",")
+					}
+					no = append(no, p...)
+				}
+				out = no
+			}
+		}
+	}
+	return out, i
 }
